@@ -283,7 +283,14 @@ public:
     r.exit = s_.stamp();
     h_.exports.push_back(std::move(r));
     bool fail = cfg_.export_fail_every > 0 && (calls_ % cfg_.export_fail_every) == 0;
-    return fail ? otel::sdk::common::ExportResult::kFailure : otel::sdk::common::ExportResult::kSuccess;
+    if (!fail)
+      return otel::sdk::common::ExportResult::kSuccess;
+    // every kind of failure is generated: the kind follows from the call number, so no extra stream byte is read
+    // (saved replays keep their meaning) and one scenario sees several kinds
+    static const otel::sdk::common::ExportResult kinds[3] = {otel::sdk::common::ExportResult::kFailure,
+                                                             otel::sdk::common::ExportResult::kFailureFull,
+                                                             otel::sdk::common::ExportResult::kFailureInvalidArgument};
+    return kinds[(static_cast<size_t>(calls_) / static_cast<size_t>(cfg_.export_fail_every)) % 3];
   }
 
   bool ForceFlush(std::chrono::microseconds) noexcept override
